@@ -43,9 +43,9 @@ fn run<const E: usize, const V: usize>(shape: [&[u32]; E]) {
 }
 
 macro_rules! ge {
-    ($name:ident, $v:expr, [$($eq:expr),+ $(,)?]) => {
+    ($name:ident, $v:expr, $unw:literal, [$($eq:expr),+ $(,)?]) => {
         #[kani::proof]
-        #[kani::unwind(8)]
+        #[kani::unwind($unw)]
         #[kani::stub(std::backtrace::Backtrace::capture, no_backtrace)]
         pub fn $name() {
             run::<{ [$(stringify!($eq)),+].len() }, $v>([$(&$eq[..]),+]);
@@ -81,9 +81,9 @@ fn run_always_solvable<const E: usize, const V: usize>(shape: [&[u32]; E]) {
 }
 
 macro_rules! ge_full_rank {
-    ($name:ident, $v:expr, [$($eq:expr),+ $(,)?]) => {
+    ($name:ident, $v:expr, $unw:literal, [$($eq:expr),+ $(,)?]) => {
         #[kani::proof]
-        #[kani::unwind(8)]
+        #[kani::unwind($unw)]
         #[kani::stub(std::backtrace::Backtrace::capture, no_backtrace)]
         pub fn $name() {
             run_always_solvable::<{ [$(stringify!($eq)),+].len() }, $v>([$(&$eq[..]),+]);
@@ -128,9 +128,9 @@ fn run_consistent<const E: usize, const V: usize>(shape: [&[u32]; E]) {
 }
 
 macro_rules! ge_consistent {
-    ($name:ident, $v:expr, [$($eq:expr),+ $(,)?]) => {
+    ($name:ident, $v:expr, $unw:literal, [$($eq:expr),+ $(,)?]) => {
         #[kani::proof]
-        #[kani::unwind(8)]
+        #[kani::unwind($unw)]
         #[kani::stub(std::backtrace::Backtrace::capture, no_backtrace)]
         pub fn $name() {
             run_consistent::<{ [$(stringify!($eq)),+].len() }, $v>([$(&$eq[..]),+]);
@@ -141,17 +141,17 @@ macro_rules! ge_consistent {
 pub mod q {
     use super::*;
     // consistent-by-construction variants of shapes with a repeated row
-    ge_consistent!(cons_e2_repeated_row, 2, [[0u32, 1], [0u32, 1]]);
-    ge_consistent!(cons_e2_same_single, 1, [[0u32], [0u32]]);
+    ge_consistent!(cons_e2_repeated_row, 2, 6, [[0u32, 1], [0u32, 1]]);
+    ge_consistent!(cons_e2_same_single, 1, 4, [[0u32], [0u32]]);
     // one equation
-    ge_full_rank!(e1_x0, 1, [[0u32]]);
-    ge_full_rank!(e1_x0x1_unused_x2, 3, [[0u32, 1]]);
+    ge_full_rank!(e1_x0, 1, 4, [[0u32]]);
+    ge_full_rank!(e1_x0x1_unused_x2, 3, 6, [[0u32, 1]]);
     // two equations: independent, dependent (repeated row), contradictory
-    ge_full_rank!(e2_triangular, 2, [[0u32, 1], [0u32]]);
-    ge!(e2_repeated_row, 2, [[0u32, 1], [0u32, 1]]);
-    ge!(e2_same_single, 1, [[0u32], [0u32]]);
-    ge_full_rank!(e2_disjoint, 3, [[0u32], [1u32, 2]]);
-    ge_full_rank!(e2_swap_needed, 2, [[1u32], [0u32, 1]]);
+    ge_full_rank!(e2_triangular, 2, 6, [[0u32, 1], [0u32]]);
+    ge!(e2_repeated_row, 2, 6, [[0u32, 1], [0u32, 1]]);
+    ge!(e2_same_single, 1, 4, [[0u32], [0u32]]);
+    ge_full_rank!(e2_disjoint, 3, 6, [[0u32], [1u32, 2]]);
+    ge_full_rank!(e2_swap_needed, 2, 6, [[1u32], [0u32, 1]]);
 }
 
 /// Shapes with three and four equations: written, measured, and NOT part of any tier -- every one of
@@ -162,16 +162,16 @@ pub mod q {
 pub mod x {
     use super::*;
     // three equations
-    ge!(e3_dependent_sum, 3, [[0u32, 1], [1u32, 2], [0u32, 2]]);
-    ge_full_rank!(e3_full_rank, 3, [[0u32, 1, 2], [1u32, 2], [2u32]]);
-    ge!(e3_repeated_then_more, 3, [[0u32, 1], [0u32, 1], [1u32, 2]]);
-    ge!(e3_overdetermined, 2, [[0u32], [1u32], [0u32, 1]]);
-    ge!(e3_all_same, 2, [[0u32, 1], [0u32, 1], [0u32, 1]]);
-    ge!(e3_reverse_order, 3, [[2u32], [1u32, 2], [0u32, 1, 2], ]);
-    ge!(e3_two_pairs, 3, [[0u32, 2], [0u32, 2], [1u32]]);
+    ge!(e3_dependent_sum, 3, 6, [[0u32, 1], [1u32, 2], [0u32, 2]]);
+    ge_full_rank!(e3_full_rank, 3, 8, [[0u32, 1, 2], [1u32, 2], [2u32]]);
+    ge!(e3_repeated_then_more, 3, 6, [[0u32, 1], [0u32, 1], [1u32, 2]]);
+    ge!(e3_overdetermined, 2, 6, [[0u32], [1u32], [0u32, 1]]);
+    ge!(e3_all_same, 2, 6, [[0u32, 1], [0u32, 1], [0u32, 1]]);
+    ge!(e3_reverse_order, 3, 8, [[2u32], [1u32, 2], [0u32, 1, 2], ]);
+    ge!(e3_two_pairs, 3, 6, [[0u32, 2], [0u32, 2], [1u32]]);
     // four equations: a redundant pair followed by rows that still need elimination
-    ge!(e4_redundant_then_chain, 4, [[0u32, 1], [0u32, 1], [1u32, 2], [1u32, 3]]);
-    ge!(e4_redundant_then_contradiction, 3, [[0u32, 1], [0u32, 1], [1u32, 2], [1u32, 2]]);
-    ge!(e4_cycle, 4, [[0u32, 1], [1u32, 2], [2u32, 3], [0u32, 3]]);
-    ge_full_rank!(e4_full_rank, 4, [[0u32, 1, 2, 3], [1u32, 3], [2u32, 3], [3u32]]);
+    ge!(e4_redundant_then_chain, 4, 6, [[0u32, 1], [0u32, 1], [1u32, 2], [1u32, 3]]);
+    ge!(e4_redundant_then_contradiction, 3, 6, [[0u32, 1], [0u32, 1], [1u32, 2], [1u32, 2]]);
+    ge!(e4_cycle, 4, 6, [[0u32, 1], [1u32, 2], [2u32, 3], [0u32, 3]]);
+    ge_full_rank!(e4_full_rank, 4, 10, [[0u32, 1, 2, 3], [1u32, 3], [2u32, 3], [3u32]]);
 }
